@@ -207,9 +207,10 @@ class C13(Property):
     clauses_without_theorem = (
         'printed reactions with parameter / name (with_param, with_name) in the three formats: not modelled in C13 (the str printer\'s parameter text is C12/C20)',
         'float coefficients in printed reactions (str(0.5)): oracle only; int and Fraction coefficients have the theorem reaction_print_spec',
-        'suffixes= / phases outside the vocabulary (s) (l) (g) (aq) (e.g. "(cr)", custom strings, a bare str iterated by characters) and a written suffix that '
-        'phases + (aq) does not list: no theorem; decided by correspondence (ops fmt, species) and, since round 9, by the oracle (suffix verbatim, names undo to the '
-        'canonical text, composition = written one, only ValueError/ParseException accepted as refusal)',
+        'suffix tuples / phases outside the vocabulary (s) (l) (g) (aq) now have theorems (suffix_kept_verbatim*, presentation_only_custom_suffix, species_custom_spec) when the '
+        'tuple FITS the formula (contains the written suffix, entries do not end one another nor the text before the suffix); still without theorem: tuples that do not fit '
+        '(a bare str iterated by characters, entries ending one another) and the REFUSAL of a written suffix that phases + (aq) does not list (needs C01 rejection lemmas) — '
+        'decided by correspondence (ops fmt, species) and the oracle',
         'counts written with non-ASCII decimal digits (H٢O: parsed as 2 but not subscripted): outside the generated domain by decision (documented limitation)',
         'LaTeX / Unicode / HTML output for text outside the C01 grammar (mutated strings, rejections): correspondence only',
         'freshly created Substance / Species objects share no mutable state with earlier ones and are unaffected by earlier keyword arguments or in-place edits '
@@ -218,8 +219,6 @@ class C13(Property):
         'calls sharing that object (phases histories): oracle only — the model takes phases by value',
         'printer dispatch for species that are not Substances (an object with its own `_html` method, `fallback_print_fn=None`): oracle only '
         '(Printer._print lines reached by the printer_dispatch stream); the model covers Substances and plain keys',
-        '`_get_charge` called directly on ill-formed charge texts (magnitude before the sign, text on both sides, no sign): refusal compared with the model '
-        '(op charge) and judged by the oracle; no C13 theorem (C01 owns `getCharge_render` / `reject_contradictory_charge`)',
         'that the harness\'s Python inverse maps equal the Lean unLatex/unUnicode/unHtml: compared on real outputs only',
     )
     anchors = (('chempy/util/parsing.py', '_formula_to_format'), ('chempy/util/parsing.py', '_subs'),
